@@ -137,8 +137,7 @@ func funcValueNonNil(v ssa.Value, in ssa.Instruction) bool {
 		// a callback handed in by the caller: calling it is the caller's contract
 		return true
 	}
-	tm := facts.Term(v)
-	return nonNilGuarded(in.Block(), tm)
+	return nonNilGuardedUp(in.Block(), v, 2)
 }
 
 func mapNonNil(m ssa.Value, in ssa.Instruction) bool {
